@@ -125,6 +125,9 @@ def replay(r):
 
 def replay_file(doc):
     rp = doc.get("replay_input") or {}
+    if rp.get("kind") == "checkdiag":
+        bad = mf.native_checkdiag()
+        return bool(bad), bad or "check_diagonal is exact on tiny off-diagonal entries"
     if rp.get("kind") == "eigvec_native":
         bad = native_eigvec(rp["n"], rp["spectrum"], rp["dt"], rp["method"], rp["seed"])
         return bool(bad), f"{rp}: {bad}"
